@@ -178,3 +178,53 @@ M("c07_connect_fail_then_connected", ["C07", "C09"],
 M("c07_poll_before_ready_after_reject", ["C07"],
   ("lomond/session.py", "        if event.name == 'ready':\n            self._on_ready()\n            self._ready = True",
    "        if event.name in ('ready', 'rejected'):\n            self._on_ready()\n            self._ready = True"))
+
+# ---- C08 -----------------------------------------------------------------
+M("c08_closing_flag_not_set", ["C08"],
+  ("lomond/websocket.py", "                self._send_close(code, reason)\n                self.state.closing = True",
+   "                self._send_close(code, reason)"))
+M("c08_echo_normal_code", ["C08"],
+  ("lomond/websocket.py", "            self.close(message.code, message.reason)", "            self.close(Status.NORMAL, message.reason)"))
+M("c08_writes_allowed_while_closing", ["C08"],
+  ("lomond/session.py", "            if self.websocket.is_closing:\n", "            if False:\n"))
+M("c08_eof_while_closing_not_graceful", ["C08"],
+  ("lomond/session.py", "                        if websocket.is_active:\n                            self._socket_fail('connection lost')",
+   "                        if not websocket.is_closed:\n                            self._socket_fail('connection lost')"))
+M("c08_no_break_after_closed", ["C08"],
+  ("lomond/websocket.py", "                if self.is_closed:\n                    break\n\n        except errors.CriticalProtocolError",
+   "                if False:\n                    break\n\n        except errors.CriticalProtocolError"),
+  equivalent=True)   # nothing is generated after the server's reply Close, so behaviour is identical
+M("c08_closed_event_without_state", ["C08"],
+  ("lomond/websocket.py", "            yield events.Closed(message.code, message.reason)\n            self.state.closing = False\n            self.state.closed = True",
+   "            yield events.Closed(message.code, message.reason)\n            self.state.closing = False"))
+M("c08_closing_event_after_echo", ["C08"],
+  ("lomond/websocket.py", "            yield events.Closing(message.code, message.reason)\n            self.close(message.code, message.reason)",
+   "            self.close(message.code, message.reason)\n            yield events.Closing(message.code, message.reason)"))
+M("c08_close_reason_dropped", ["C08"],
+  ("lomond/frame.py", "        payload_bytes = cls._pack_close_code(status) + reason", "        payload_bytes = cls._pack_close_code(status) + reason[:20]"))
+M("c08_stop_delivering_when_closing", ["C08"],
+  ("lomond/websocket.py", "                    elif message.is_binary:\n                        yield events.Binary(message.data)",
+   "                    elif message.is_binary and not self.is_closing:\n                        yield events.Binary(message.data)"))
+M("c08_socket_not_closed_after_closed", ["C08"],
+  ("lomond/session.py", "            # it was a graceful exit.\n            self._close_socket()", "            # it was a graceful exit.\n            pass"))
+
+# ---- C14 -----------------------------------------------------------------
+M("c14_pong_after_yield", ["C14"],
+  ("lomond/session.py", "                            self._on_event(event, auto_pong)\n                            yield event\n",
+   "                            yield event\n                            self._on_event(event, auto_pong)\n"))
+M("c14_pong_payload_dropped", ["C14"],
+  ("lomond/session.py", "            self.websocket.send_pong(event.data)", "            self.websocket.send_pong(event.data[:100])"))
+M("c14_pong_on_pong", ["C14"],
+  ("lomond/session.py", "        elif event.name == 'pong':\n            self._on_pong(event)",
+   "        elif event.name == 'pong':\n            self._on_pong(event)\n            self._send_pong(event)"))
+M("c14_auto_pong_ignored", ["C14"],
+  ("lomond/session.py", "            if auto_pong:\n                self._send_pong(event)", "            if True:\n                self._send_pong(event)"))
+M("c14_pong_error_propagates", ["C14", "C09"],
+  ("lomond/session.py", "            self.websocket.send_pong(event.data)\n        except errors.WebSocketError:",
+   "            self.websocket.send_pong(event.data)\n        except errors.WebSocketClosing:"))
+M("c14_pong_only_first_ping_per_read", ["C14"],
+  ("lomond/session.py", "        elif event.name == 'ping':\n            if auto_pong:",
+   "        elif event.name == 'ping' and event.data != getattr(self, '_lp', None):\n            self._lp = event.data\n            if auto_pong:"))
+M("c14_pong_while_closing_raises_to_loop", ["C14"],
+  ("lomond/session.py", "        except errors.WebSocketError:\n            # In case the websocket has gone away\n            pass",
+   "        except errors.TransportFail:\n            # In case the websocket has gone away\n            pass"))
